@@ -91,6 +91,11 @@ namespace sqf::runtime
         bool m_started;
         bool m_die;
         size_t m_value_stack_pos;
+#ifdef SQFVM_RUNTIME_VERIF
+    public:
+        // Identity of this frame instance, assigned by context::push_frame.
+        size_t verif_id = 0;
+#endif
 
     private:
         void clear_values_helper(runtime& runtime);
